@@ -96,7 +96,8 @@ pub fn run(ctx: &Ctx) -> Outcome {
         let key = &keys(seed, cfg.key_len)[0];
         let lbfs = 3 * bs + 2;
         // long input: a single piece can exceed twice the parallel width and fixed thresholds of 8 / 16 blocks
-        let llong = long_blocks(par_of(cfg)) * bs + bs / 2 + 1;
+        let llong = (long_blocks(par_of(cfg)) * bs + bs / 2 + 1).max(if bs <= 16 { 66 * bs + 1 } else { 0 });
+        let llong_sched = long_blocks(par_of(cfg)) * bs + bs / 2 + 1;
         let pre = dirty(llong + 2 * bs + 2);
         for (fam, dir, fe) in byte_frontends(cfg).into_iter().enumerate().filter(|(i, _)| Some(*i) == *which).map(|(_, f)| f) {
             for (ivn, iv) in iv_variants(seed, bs).into_iter().skip(tier.pick(2, 1)) {
@@ -152,7 +153,7 @@ pub fn run(ctx: &Ctx) -> Outcome {
                     // (2b) the same on a LONG input with cuts restricted to block-boundary neighbourhoods: a short
                     // piece, a long piece that completes a block and carries many whole blocks, and the rest
                     {
-                        let l = llong;
+                        let l = llong_sched;
                         let pts = boundary_points(bs, l);
                         let mut n_sched = 0u64;
                         for (i, &a) in pts.iter().enumerate() {
@@ -171,6 +172,22 @@ pub fn run(ctx: &Ctx) -> Outcome {
                             }
                         }
                         rep.count("long_input_schedules", n_sched);
+                    }
+                    // (2c) very long pieces (past 32 and 64 blocks) for small blocks: [a, long, c]
+                    if bs <= 16 {
+                        let l = 66 * bs + 1;
+                        if l <= data.len() {
+                            for a in [0usize, 1, bs / 2, bs - 1] {
+                                for c in [0usize, 1, bs - 1, 32 * bs + 1] {
+                                    let pieces = vec![p(a, Kind::InPlace), p(l - a - c, Kind::InPlace), p(c, Kind::InPlace)];
+                                    rep.case(|| {
+                                        let got = (fe.run)(key, &iv, &data[..l], &pieces, &pre)?;
+                                        ensure!(got.out == want[..l], format!("output/{}", fe.name), "{} L={} pieces [{}]: {} differs from the single-call / reference result {} (first diff at byte {:?})", fe.ty, l, ps(&pieces), short(&got.out), short(&want[..l]), first_diff(&got.out, &want[..l]));
+                                        Ok(())
+                                    });
+                                }
+                            }
+                        }
                     }
                     // (3) merged BFS over piece lengths
                     let lens: Vec<usize> = if bs <= 4 { (0..=2 * bs + 1).collect() } else if bs <= 32 { vec![0, 1, 2, bs - 1, bs, bs + 1, 2 * bs - 1, 2 * bs, 2 * bs + 1] } else { vec![0, bs - 1, bs, bs + 1, 2 * bs - 1, 2 * bs, 2 * bs + 1] };
